@@ -32,6 +32,10 @@ Step ==
        [] e.a = "Recompute" -> Recompute(e.o, e.v) /\ UNCHANGED results
                           /\ fails' = fails \o HeapClause \o (IF e.raised # "" THEN <<"C14.recompute_edges_raised">>
                                                              ELSE Fail(e.df_fp = e.fresh_fp, "C14.recompute_edges_differs_from_functional_edge_recomputation"))
+       [] e.a = "RecomputeRaises" -> RecomputeRaises(e.o) /\ UNCHANGED results
+                          /\ fails' = fails \o HeapClause \o Fail(e.raised = e.fresh_raised, "C14.recompute_edges_outcome_differs_from_functional_edge_recomputation")
+                                             \o Fail(e.raised = "" \/ e.df_fp = e.before_fp, "EXT.table_changed_by_a_failed_recompute_edges")
+                                             \o Fail(e.raised # "", "EXT.recompute_edges_of_an_amplitude_or_unfitted_object_did_not_raise")
        [] e.a = "Load" -> Load(e.o, e.s) /\ UNCHANGED results
                           /\ fails' = fails \o HeapClause \o Fail(e.raised = "" /\ e.df_fp = e.fresh_fp, "C14.load")
        [] e.a = "Edit" -> EditDict(e.o, e.method, e.v) /\ fails' = fails \o HeapClause /\ UNCHANGED results
